@@ -1,5 +1,6 @@
 # -*- coding: utf-8 -*-
 
+import math
 import re
 from typing import Any
 
@@ -149,7 +150,9 @@ def _scalar_node_from_value(
             except ValueError:
                 pass
             else:
-                return _ast.FloatValue(value=str(fl))
+                # "nan", "inf"... have no literal form and must stay strings.
+                if math.isfinite(fl):
+                    return _ast.FloatValue(value=str(fl))
 
         return _ast.StringValue(value=scalar_value)
 
